@@ -37,6 +37,7 @@ func init() {
 		"(*sync.RWMutex).RUnlock": lockOp(false, true),
 		"sync/atomic.AddUint64":   atomicAdd,
 		"sync/atomic.LoadUint64":  atomicLoad,
+		"encoding/json.Unmarshal": jsonUnmarshal,
 		"github.com/enbility/spine-go/model.writeAllowed":                 leafWriteAllowed,
 		"github.com/enbility/spine-go/model.HasIdentifiers":               leafHasIdentifiers,
 		"github.com/enbility/spine-go/model.hashKey":                      leafHashKey,
@@ -64,6 +65,14 @@ func init() {
 			fr.typeCells(types.Typ[types.Uint64], set)
 			set["acq"] = true
 			fr.vc.compSort["acq"] = "(Array Int Int)"
+		},
+		"encoding/json.Unmarshal": func(fr *Frame, c *ssa.CallCommon, set map[string]bool) {
+			set["world"] = true
+			if ty, _ := fr.staticIfaceOperand(c.Args[1]); ty != nil {
+				if pt, ok := ty.Underlying().(*types.Pointer); ok {
+					fr.typeCells(pt.Elem(), set)
+				}
+			}
 		},
 		"sync/atomic.LoadUint64": func(fr *Frame, c *ssa.CallCommon, set map[string]bool) {
 			set["acq"] = true
@@ -230,6 +239,39 @@ func atomicAdd(fr *Frame, site ssa.Instruction, fn *ssa.Function, args []*Term, 
 func countAtomicOp(vc *VC, st *State, a *Term) {
 	acq := vc.comp(st, "acq", "(Array Int Int)")
 	vc.setComp(st, "acq", "(Array Int Int)", vc.name("acq", "(Array Int Int)", mkStore(acq, a, app("+", mkSelect(acq, a), leaf("1")))))
+}
+
+// json.Unmarshal(data, &x): afterwards x holds an arbitrary value of its Go type (every pointer, slice and string in
+// it independently nil/empty/arbitrary), whether or not an error is returned; nothing else changes
+func jsonUnmarshal(fr *Frame, site ssa.Instruction, fn *ssa.Function, args []*Term, st *State) []*Term {
+	vc := fr.vc
+	vc.assumptions["encoding/json.Unmarshal either fails or yields a value of the declared Go type; the destination is arbitrary afterwards (library contract)"] = true
+	vc.bumpWorld(st)
+	var c *ssa.CallCommon
+	switch x := site.(type) {
+	case *ssa.Call:
+		c = &x.Call
+	case *ssa.Defer:
+		c = &x.Call
+	}
+	done := false
+	if c != nil {
+		ty, v := fr.staticIfaceOperand(c.Args[1])
+		if pt, ok := ty.Underlying().(*types.Pointer); ok {
+			if _, isArr := pt.Elem().Underlying().(*types.Array); !isArr {
+				fv := vc.fresh("unm", vc.sortOf(pt.Elem()))
+				vc.assume(st.guard, vc.ptrFacts(st, pt.Elem(), fv, 0))
+				vc.storeVal(st, pt.Elem(), v, fv)
+				done = true
+			}
+		}
+	}
+	if !done {
+		vc.unsupportedf("json.Unmarshal into a destination whose static type is not a pointer")
+	}
+	e := vc.fresh("r", "Iface")
+	vc.assume(st.guard, vc.ptrFacts(st, fn.Signature.Results().At(0).Type(), e, 0))
+	return []*Term{e}
 }
 
 func atomicLoad(fr *Frame, site ssa.Instruction, fn *ssa.Function, args []*Term, st *State) []*Term {
